@@ -21,6 +21,8 @@ pub enum Op {
     SeekSlot(usize),
     SeekTo(u64, u64),
     SetPolicy(PolDesc),
+    Json(usize),
+    OwnedJson,
 }
 
 impl Op {
@@ -44,6 +46,8 @@ impl Op {
                 Op::SeekTo(n(a)? as u64, n(b)? as u64)
             }
             "P" => Op::SetPolicy(PolDesc::parse(rest)?),
+            "j" => Op::Json(n(rest)?),
+            "y" if rest.is_empty() => Op::OwnedJson,
             _ => return None,
         })
     }
@@ -59,12 +63,15 @@ impl Op {
             Op::Exact(j, n) => format!("e{}.{}", j, n),
             Op::SeekTo(l, b) => format!("K{}.{}", l, b),
             Op::SetPolicy(p) => format!("P{}", p.show()),
+            Op::Json(j) => format!("j{}", j),
+            Op::OwnedJson => "y".into(),
         }
     }
 }
 
 #[derive(Clone, Debug)]
 pub struct Case {
+    pub kind: String,
     pub fmt: String,
     pub cap: usize,
     pub pol: PolDesc,
@@ -78,7 +85,7 @@ pub struct Case {
 impl Case {
     pub fn parse(line: &str) -> Option<Case> {
         let t: Vec<&str> = line.trim().split(' ').collect();
-        if t.len() != 9 || t[0] != "R" {
+        if t.len() != 9 || (t[0] != "R" && t[0] != "A") {
             return None;
         }
         let script = if t[5] == "-" {
@@ -112,6 +119,7 @@ impl Case {
             t[8].split(',').map(Op::parse).collect::<Option<Vec<_>>>()?
         };
         Some(Case {
+            kind: t[0].to_string(),
             fmt: t[1].to_string(),
             cap: t[2].parse().ok()?,
             pol: PolDesc::parse(t[3])?,
@@ -152,7 +160,8 @@ impl Case {
             self.ops.iter().map(|o| o.show()).collect::<Vec<_>>().join(",")
         };
         format!(
-            "R {} {} {} {} {} {} {} {}",
+            "{} {} {} {} {} {} {} {} {}",
+            self.kind,
             self.fmt,
             self.cap,
             self.pol.show(),
@@ -250,7 +259,23 @@ fn fa_owned(r: &fasta::OwnedRecord) -> String {
     format!("h={}:s={}", hex(&r.head), hex(&r.seq))
 }
 
+fn json_roundtrip<T: serde::Serialize + serde::de::DeserializeOwned>(set: &T, dump: impl Fn(&T) -> String) -> String {
+    let js = serde_json::to_string(set).unwrap();
+    let back: T = serde_json::from_str(&js).unwrap();
+    let rt = dump(set) == dump(&back);
+    format!("J:{}:rt={}", hex(js.as_bytes()), rt as u8)
+}
+
 pub fn run_fasta(c: &Case) -> String {
+    let err_str = fa_err;
+    let json_set = |s: &fasta::RecordSet| {
+        json_roundtrip(s, |x| x.into_iter().map(|r| fa_rec(&r)).collect::<Vec<_>>().join("/"))
+    };
+    let json_owned = |r: &fasta::OwnedRecord| {
+        let js = serde_json::to_string(r).unwrap();
+        let back: fasta::OwnedRecord = serde_json::from_str(&js).unwrap();
+        format!("Y:{}:rt={}", hex(js.as_bytes()), (back == *r) as u8)
+    };
     let log: Log = Rc::new(RefCell::new(vec![]));
     let src = ScriptedReader::new(c.input.clone(), c.script.clone(), c.chunk, c.seek_fails.clone());
     let mut rdr = fasta::Reader::with_capacity(src, c.cap).set_policy(DynPolicy::new(c.pol.clone(), log.clone()));
@@ -258,13 +283,22 @@ pub fn run_fasta(c: &Case) -> String {
     let mut slots: Vec<Option<fasta::Position>> = vec![None; 4];
     let mut out: Vec<String> = vec![];
     let mut log_len = 0usize;
+    #[allow(unused_assignments)]
+    let mut op_allocs = 0usize;
 
     for op in &c.ops {
+        op_allocs = 0;
         let res: Caught<String> = match op {
-            Op::Next => guarded(|| match rdr.next() {
-                None => "N".to_string(),
-                Some(Err(e)) => fa_err(&e),
-                Some(Ok(r)) => format!("R:{}", fa_rec(&r)),
+            Op::Next => guarded(|| {
+                let a0 = crate::alloc::count();
+                let res = rdr.next();
+                let a1 = crate::alloc::count();
+                op_allocs = a1 - a0;
+                match res {
+                    None => "N".to_string(),
+                    Some(Err(e)) => fa_err(&e),
+                    Some(Ok(r)) => format!("R:{}", fa_rec(&r)),
+                }
             }),
             Op::Owned => guarded(|| match rdr.records().next() {
                 None => "N".to_string(),
@@ -275,10 +309,12 @@ pub fn run_fasta(c: &Case) -> String {
                 let n = if let Op::Exact(_, n) = op { Some(*n) } else { None };
                 let set = &mut sets[*j];
                 guarded(|| {
+                    let a0 = crate::alloc::count();
                     let r = match n {
                         None => rdr.read_record_set(set),
                         Some(n) => rdr.read_record_set_exact(set, Some(n)),
                     };
+                    op_allocs = crate::alloc::count() - a0;
                     match r {
                         None => "N".to_string(),
                         Some(Err(e)) => fa_err(&e),
@@ -322,10 +358,20 @@ pub fn run_fasta(c: &Case) -> String {
                 rdr = rdr.set_policy(DynPolicy::new(p.clone(), log.clone()));
                 Caught::Ok("Y".to_string())
             }
+            Op::Json(j) => {
+                let set = &sets[*j];
+                guarded(|| json_set(set))
+            }
+            Op::OwnedJson => guarded(|| match rdr.records().next() {
+                None => "N".to_string(),
+                Some(Err(e)) => err_str(&e),
+                Some(Ok(r)) => json_owned(&r),
+            }),
         };
         let grew = log.borrow().len() != log_len;
         log_len = log.borrow().len();
         let sfx = if grew { format!("#{}", log_len) } else { String::new() };
+        let sfx = if c.kind == "A" { format!("{}@{}", sfx, op_allocs) } else { sfx };
         match res {
             Caught::Ok(s) => out.push(s + &sfx),
             Caught::Panic => {
@@ -398,6 +444,15 @@ fn fq_owned(r: &fastq::OwnedRecord) -> String {
 }
 
 pub fn run_fastq(c: &Case) -> String {
+    let err_str = fq_err;
+    let json_set = |s: &fastq::RecordSet| {
+        json_roundtrip(s, |x| x.into_iter().map(|r| fq_rec(&r)).collect::<Vec<_>>().join("/"))
+    };
+    let json_owned = |r: &fastq::OwnedRecord| {
+        let js = serde_json::to_string(r).unwrap();
+        let back: fastq::OwnedRecord = serde_json::from_str(&js).unwrap();
+        format!("Y:{}:rt={}", hex(js.as_bytes()), (back == *r) as u8)
+    };
     let log: Log = Rc::new(RefCell::new(vec![]));
     let src = ScriptedReader::new(c.input.clone(), c.script.clone(), c.chunk, c.seek_fails.clone());
     let mut rdr = fastq::Reader::with_capacity(src, c.cap).set_policy(DynPolicy::new(c.pol.clone(), log.clone()));
@@ -405,13 +460,22 @@ pub fn run_fastq(c: &Case) -> String {
     let mut slots: Vec<Option<fastq::Position>> = vec![None; 4];
     let mut out: Vec<String> = vec![];
     let mut log_len = 0usize;
+    #[allow(unused_assignments)]
+    let mut op_allocs = 0usize;
 
     for op in &c.ops {
+        op_allocs = 0;
         let res: Caught<String> = match op {
-            Op::Next => guarded(|| match rdr.next() {
-                None => "N".to_string(),
-                Some(Err(e)) => fq_err(&e),
-                Some(Ok(r)) => format!("R:{}", fq_rec(&r)),
+            Op::Next => guarded(|| {
+                let a0 = crate::alloc::count();
+                let res = rdr.next();
+                let a1 = crate::alloc::count();
+                op_allocs = a1 - a0;
+                match res {
+                    None => "N".to_string(),
+                    Some(Err(e)) => fq_err(&e),
+                    Some(Ok(r)) => format!("R:{}", fq_rec(&r)),
+                }
             }),
             Op::Owned => guarded(|| match rdr.records().next() {
                 None => "N".to_string(),
@@ -422,10 +486,12 @@ pub fn run_fastq(c: &Case) -> String {
                 let n = if let Op::Exact(_, n) = op { Some(*n) } else { None };
                 let set = &mut sets[*j];
                 guarded(|| {
+                    let a0 = crate::alloc::count();
                     let r = match n {
                         None => rdr.read_record_set(set),
                         Some(n) => rdr.read_record_set_exact(set, Some(n)),
                     };
+                    op_allocs = crate::alloc::count() - a0;
                     match r {
                         None => "N".to_string(),
                         Some(Err(e)) => fq_err(&e),
@@ -468,10 +534,20 @@ pub fn run_fastq(c: &Case) -> String {
                 rdr = rdr.set_policy(DynPolicy::new(p.clone(), log.clone()));
                 Caught::Ok("Y".to_string())
             }
+            Op::Json(j) => {
+                let set = &sets[*j];
+                guarded(|| json_set(set))
+            }
+            Op::OwnedJson => guarded(|| match rdr.records().next() {
+                None => "N".to_string(),
+                Some(Err(e)) => err_str(&e),
+                Some(Ok(r)) => json_owned(&r),
+            }),
         };
         let grew = log.borrow().len() != log_len;
         log_len = log.borrow().len();
         let sfx = if grew { format!("#{}", log_len) } else { String::new() };
+        let sfx = if c.kind == "A" { format!("{}@{}", sfx, op_allocs) } else { sfx };
         match res {
             Caught::Ok(s) => out.push(s + &sfx),
             Caught::Panic => {
